@@ -381,6 +381,67 @@ func runC17(c *Config, r *Report) {
 			"go/build.matchTag consults Context."+f+" but no function reachable from "+okFn.Name()+" reads it")
 	}
 	uses := func(s string) bool { _, ok := lits[s]; return ok }
+	// the set of systems the unix tag stands for: the map[string]bool indexed by Context.GOOS in a
+	// conjunction with the test of the tag against "unix" agrees with go/build's unixOS
+	if !delegated && uses("unix") {
+		var tab *ast.CompositeLit
+		var tabName string
+		for _, fi := range decls {
+			ast.Inspect(fi.Decl.Body, func(n ast.Node) bool {
+				be, ok := n.(*ast.BinaryExpr)
+				if !ok || be.Op != token.LAND {
+					return true
+				}
+				hasUnix := false
+				ast.Inspect(be, func(z ast.Node) bool {
+					if l, ok := z.(*ast.BasicLit); ok && l.Value == `"unix"` {
+						hasUnix = true
+					}
+					return true
+				})
+				if !hasUnix {
+					return true
+				}
+				ast.Inspect(be, func(z ast.Node) bool {
+					ix, ok := z.(*ast.IndexExpr)
+					if !ok {
+						return true
+					}
+					if v := selField(ic.Info, ix.Index); v == nil || v.Name() != "GOOS" {
+						return true
+					}
+					if id := identOf(ix.X); id != nil {
+						if tv, ok := ic.Info.Uses[id].(*types.Var); ok {
+							if cl := tables[tv]; cl != nil {
+								tab, tabName = cl, tv.Name()
+							}
+						}
+					}
+					return true
+				})
+				return true
+			})
+		}
+		if tab == nil {
+			r.Fail("R17.2", "tag/unix/systems", evPos, "undecided: the unix tag is mentioned but no table of systems indexed by Context.GOOS is found next to it")
+		} else {
+			have := keysOf(tab)
+			var diff []string
+			for k := range ref.unixOS {
+				if !have[k] {
+					diff = append(diff, "missing "+k)
+				}
+			}
+			for k := range have {
+				if !ref.unixOS[k] {
+					diff = append(diff, "extra "+k)
+				}
+			}
+			sort.Strings(diff)
+			r.Check(len(diff) == 0, "R17.2", "tag/unix/systems", ic.pos(tab.Pos()), fmt.Sprintf("table %s lists the %d systems of go/build's unixOS", tabName, len(have)),
+				"the table "+tabName+" used for the unix tag differs from go/build's unixOS: "+strings.Join(diff, ", ")+": a file constrained by 'unix' is selected, or skipped, on a system where the Go toolchain decides otherwise")
+		}
+	}
 	r.Check(delegated || uses("unix"), "R17.2", "tag/unix", evPos, "the unix tag is handled",
 		"go/build satisfies the tag \"unix\" when GOOS is in unixOS; no function reachable from "+okFn.Name()+" mentions it: a file constrained by 'unix' is skipped on "+strings.Join(sortedKeys(ref.unixOS), ","))
 	{
